@@ -1437,10 +1437,11 @@ example : (isAlphaB 102 || 102 == 58) = true ∧ (∀ x ∈ [111, 111], isWordB 
 open SH.PromLex.Frag in
 /-- Character level, recursive fragment (SH.Lemmas.PromLexFrag): for every expression built from metric names, range selectors
     `name[<n>s]`, parentheses, one-argument calls `f(e)` and the twelve binary operators ` + - * / % ^ == != <= >= < > ` (each
-    written with a blank on either side; round 7), the whole lexer on the text the printer writes returns exactly
+    written with a blank on either side; round 7) and unsigned number literals as operands (any `NumShape` the printer can
+    write: digits, optional fraction, optional exponent; round 7), the whole lexer on the text the printer writes returns exactly
     the expression's tokens — by induction on the expression, chaining the step lemmas with the lexer-state invariant (paren depth
     restored, bracket mode left). Not yet covered: matchers, @/offset modifiers, several arguments, aggregations, the set
-    operators and the bool/on/ignoring/group modifiers, numbers/strings as operands, unary signs; and the bridge from these raw
+    operators and the bool/on/ignoring/group modifiers, strings and Inf/NaN as operands, unary signs; and the bridge from these raw
     tokens to `parse`. -/
 theorem lexAll_printText_fragment (e : TE) (hg : Good e) : lexAll (printText e) = (toksOf e, .eof) :=
   lexAll_printText e hg
@@ -1449,6 +1450,11 @@ open SH.PromLex.Frag in
 /-- non-vacuity: `f(a[300s] + (b))` is in the fragment -/
 example : Good (.call 102 [] (.add (.rng 97 [] 300) (.par (.sel 98 [])))) := by
   refine ⟨⟨by decide, by simp⟩, ⟨by decide, by simp⟩, ⟨by decide, by simp⟩⟩
+
+open SH.PromLex.Frag in
+/-- non-vacuity with a number: `f(a * 2.5e3)` is in the fragment -/
+example : Good (.call 102 [] (.bin .mul (.sel 97 []) (.num ⟨[50], some [53], some (false, [51])⟩))) := by
+  refine ⟨⟨by decide, by simp⟩, ⟨by decide, by simp⟩, by show NumShape.ok _ = true; decide⟩
 
 open SH.PromLex.Frag in
 /-- the whole lexer on `a <= b ^ c`, by the theorem (not by evaluation) and by evaluation: the same five tokens -/
